@@ -143,13 +143,33 @@ type tcore struct {
 	creates      bool
 	sdAddrs      map[string]bool
 	createdAddrs []string
+
+	// measurement of the account-inspection and jump classes (in-tree side only)
+	preEmpty   map[string]bool  // accounts that are empty in the pre-state
+	touched    map[string]uint8 // address -> mechanisms that reached it in this transaction
+	inspects   map[string]bool  // "<op>:<existence state>"
+	jumps      map[string]bool  // "<code kind>:<destination kind>"
+	initJumped map[uint64]bool  // distinct hash-less init codes (CREATE / creation tx) that took a jump
+	callFresh, callFreshCode bool
 }
+
+const (
+	tCall0 uint8 = 1 << iota
+	tCallV
+	tStatic
+	tBenef
+)
+
+// acctView is what the state says about an account at the moment an instruction looks at it.
+type acctView struct{ exist, empty, code, suicided bool }
 
 const maxTrace = 3000
 
 var addrMask = new(big.Int).Sub(new(big.Int).Lsh(big.NewInt(1), 160), big.NewInt(1))
 
-func newCore() *tcore { return &tcore{sdAddrs: map[string]bool{}} }
+func newCore() *tcore {
+	return &tcore{sdAddrs: map[string]bool{}, touched: map[string]uint8{}, inspects: map[string]bool{}, jumps: map[string]bool{}, initJumped: map[uint64]bool{}}
+}
 
 type stepInfo struct {
 	depth   int
@@ -163,6 +183,7 @@ type stepInfo struct {
 	self    func() string
 	reqGas  func(addr byte, in []byte) uint64 // precompile price
 	gasLeft uint64                            // what a precompile may cost at most on this side
+	acct    func(addr string) acctView        // nil: no measurement on this side
 }
 
 func isWriteOp(op byte) bool {
@@ -172,7 +193,104 @@ func isWriteOp(op byte) bool {
 // interesting tells whether step needs the operands of the instruction (everything else goes
 // through the allocation-free count).
 func interesting(op byte) bool {
-	return op == 0x5a || op == 0x3f || isWriteOp(op) || op == 0xf1 || op == 0xf2 || op == 0xf4 || op == 0xfa
+	return op == 0x5a || op == 0x3f || op == 0x3b || op == 0x3c || op == 0x31 || isWriteOp(op) || op == 0xf1 || op == 0xf2 || op == 0xf4 || op == 0xfa
+}
+
+func addrHex(v *big.Int) string { return fmt.Sprintf("%040x", new(big.Int).And(v, addrMask)) }
+
+func touchNames(m uint8) string {
+	var p []string
+	for i, n := range []string{"call0", "callvalue", "staticcall", "selfdestruct-beneficiary"} {
+		if m&(1<<uint(i)) != 0 {
+			p = append(p, n)
+		}
+	}
+	return strings.Join(p, "+")
+}
+
+// inspect records in which existence state the account was that an account-inspecting
+// instruction looked at.
+func (c *tcore) inspect(s stepInfo) {
+	a := addrHex(s.back(0))
+	v := s.acct(a)
+	created := isCreatedIn(a, c)
+	pre := strings.HasPrefix(a, "00000000000000000000000000000000000000")
+	var st string
+	switch {
+	case a == s.self() && created && !v.code:
+		st = "self-being-created"
+	case a == s.self():
+		st = "self"
+	case created && v.suicided:
+		st = "created-selfdestructed"
+	case created && v.code:
+		st = "created-with-code"
+	case created && v.exist:
+		st = "created-no-code"
+	case created:
+		st = "creation-undone-or-pending"
+	case v.suicided:
+		st = "selfdestructed"
+	case a == govAddrHex:
+		st = "governance-precompile"
+	case pre && a[38:] >= "01" && a[38:] <= "08":
+		switch {
+		case !v.exist:
+			st = "precompile-absent"
+		case v.empty:
+			st = "precompile-empty"
+		default:
+			st = "precompile-funded"
+		}
+	case !v.exist:
+		st = "absent"
+	case v.empty && c.preEmpty[a]:
+		st = "empty-in-prestate"
+	case v.empty:
+		st = "empty"
+	case v.code:
+		st = "contract"
+	default:
+		st = "nonempty-no-code"
+	}
+	if m := c.touched[a]; m != 0 && (!v.exist || v.empty) {
+		st += "-after-" + touchNames(m)
+	}
+	c.inspects[opName(s.op)+":"+st] = true
+}
+
+// jump records where a taken JUMP / JUMPI went. kind: init (hash-less init code: CREATE or the
+// creation transaction), fresh (code of an address created in this transaction), prestate.
+func (c *tcore) jump(kind string, code []byte, dest *big.Int) {
+	var cls string
+	switch {
+	case dest.BitLen() > 32 || int(dest.Uint64()) >= len(code):
+		cls = "out-of-range"
+	case code[dest.Uint64()] != 0x5b:
+		cls = "not-a-jumpdest"
+	default:
+		d, pc := int(dest.Uint64()), 0
+		for pc < d {
+			if o := code[pc]; o >= 0x60 && o <= 0x7f {
+				pc += int(o-0x5f) + 1
+			} else {
+				pc++
+			}
+		}
+		if pc == d {
+			cls = "valid"
+		} else {
+			cls = "into-push-data-at-5b"
+		}
+	}
+	c.jumps[kind+":"+cls] = true
+	if kind == "init" {
+		hh := uint64(14695981039346656037)
+		for _, b := range code {
+			hh = (hh ^ uint64(b)) * 1099511628211
+		}
+		c.initJumped[hh] = true
+	}
 }
 
 func (c *tcore) count(depth int, pc uint64, op byte, gas, cost, floor uint64) {
@@ -209,14 +327,17 @@ func (c *tcore) step(s stepInfo) {
 	switch {
 	case s.op == 0x5a:
 		c.sawGas = true
-	case s.op == 0x3f:
-		if len(c.createdAddrs) > 0 {
-			a := fmt.Sprintf("%040x", new(big.Int).And(s.back(0), addrMask))
+	case s.op == 0x3f || s.op == 0x3b || s.op == 0x3c || s.op == 0x31:
+		if s.op == 0x3f && len(c.createdAddrs) > 0 {
+			a := addrHex(s.back(0))
 			for _, prev := range c.createdAddrs {
 				if prev == a {
 					c.hashOfCreated = true
 				}
 			}
+		}
+		if s.acct != nil {
+			c.inspect(s)
 		}
 	case isWriteOp(s.op):
 		c.writes = true
@@ -594,6 +715,40 @@ func labelOps(x *h.Ctx, tr *tcore) {
 	if tr.createLowGas {
 		x.Label("shape:create-in-called-frame")
 	}
+	for _, k := range sortedKeys(tr.inspects) {
+		x.Label("inspect:" + k)
+	}
+	for _, k := range sortedKeys(tr.jumps) {
+		x.Label("jump:" + k)
+	}
+	switch n := len(tr.initJumped); {
+	case n >= 3:
+		x.Label("shape:different-initcodes-that-jump:>=3")
+	case n > 0:
+		x.Labelf("shape:different-initcodes-that-jump:%d", n)
+	}
+	nc := 0
+	for _, o := range []byte{0xf0, 0xf5} {
+		nc += int(tr.ops[o])
+	}
+	if nc >= 2 {
+		x.Labelf("shape:creates-in-one-tx:%s", bucket(nc))
+	}
+	if tr.callFresh {
+		x.Label("shape:call-into-address-created-in-this-tx")
+	}
+	if tr.callFreshCode {
+		x.Label("shape:call-into-code-deployed-in-this-tx")
+	}
+}
+
+func sortedKeys(m map[string]bool) []string {
+	keys := make([]string, 0, len(m))
+	for k := range m {
+		keys = append(keys, k)
+	}
+	sort.Strings(keys)
+	return keys
 }
 
 func fingerprint(r *result) string {
